@@ -162,7 +162,8 @@ def op_sequence(ctx, g: Gen, t, length):
                "to_cumulative", "aggregate", "summarize", "merge", "coalesce", "derive_fields", "derive_metadata",
                "replace", "make_right_triangle", "make_right_diagonal", "split", "period_merge", "add_statics",
                "thin", "fill_forward_gaps", "backfill", "convert_currency", "binary_roundtrip", "json_roundtrip",
-               "blend", "remove_static_details", "shift_origin", "add_cross_basis_after", "add_cross_basis_after"]
+               "blend", "remove_static_details", "shift_origin", "add_cross_basis_after", "add_cross_basis_after",
+               "wide_frame_roundtrip", "long_frame_roundtrip", "unlimit_one_slice"]
         op = r.choice(ops)
         forced_cross = op == "add_cross_basis_after"
         if forced_cross:
@@ -297,6 +298,32 @@ def op_sequence(ctx, g: Gen, t, length):
                 t2 = t.blend([t], method="linear")
             elif op == "remove_static_details":
                 t2 = t.remove_static_details()
+            elif op == "wide_frame_roundtrip":
+                lds = sorted({k for m in t.metadata for k in m.loss_details})
+                t2 = type(t).from_wide_data_frame(t.to_wide_data_frame(), field_cols=list(t.fields), loss_detail_cols=lds)
+            elif op == "long_frame_roundtrip":
+                import os
+
+                lds = sorted({k for m in t.metadata for k in m.loss_details})
+                pth = f"/verif/build/C01/op_{os.getpid()}.csv"
+                if r.random() < 0.5:
+                    t.to_wide_csv(pth)
+                    t2 = type(t).from_wide_csv(pth, field_cols=list(t.fields), loss_detail_cols=lds)
+                else:
+                    t.to_long_csv(pth)
+                    t2 = type(t).from_long_csv(pth)
+                os.unlink(pth)
+            elif op == "unlimit_one_slice":
+                # one slice becomes unlimited (per_occurrence_limit None) next to limited ones
+                ms = t.metadata
+                if not ms:
+                    raise ValueError("not applicable")
+                import dataclasses as _dc
+
+                m0 = r.choice(ms)
+                lim = r.choice([None, None, 1000000, 250000.0])
+                t2 = t.replace(metadata=lambda c: _dc.replace(c.metadata, per_occurrence_limit=lim) if c.metadata == m0 else
+                               (_dc.replace(c.metadata, per_occurrence_limit=500000) if r.random() < 0.0 else c.metadata))
             elif op == "shift_origin":
                 from bermuda.utils import shift_origin as so
 
@@ -322,7 +349,7 @@ def op_sequence(ctx, g: Gen, t, length):
             if rebuilt is not None and strict_seq(rebuilt) != strict_seq(t2):
                 probs.append("result is not a fixed point of the constructor")
         if probs:
-            return trace, (op, probs, t2)
+            return trace, (op, probs, t2, t)
         t = t2
     return trace, None
 
@@ -382,6 +409,56 @@ def run(ctx):
                 pass
         if len(fails) > 5:
             break
+    # directed: periods that share a start (or an end) inside ONE slice, with evaluation dates that conflict with
+    # the period order -- the key (start, end, evaluation) and any other arrangement of it disagree here only
+    from bermuda import Cell as _Cell, CumulativeCell as _Cum, IncrementalCell as _Inc
+
+    for i in range(40 if ctx.quick else 400):
+        ms, _sd = g.metas(g.r.choice([1, 1, 2]), None)
+        y = g.r.randint(1995, 2030)
+        ps = datetime.date(y, g.r.choice([1, 4, 7]), 1)
+        ends = sorted({ps + datetime.timedelta(days=d) for d in g.r.sample([14, 30, 59, 89, 180, 364, 729], g.r.randint(2, 4))})
+        kind = g.r.choice(["Cell", "CumulativeCell", "IncrementalCell"])
+        cells = []
+        for m in ms:
+            evs = [ends[-1] + datetime.timedelta(days=30 * k) for k in range(len(ends), 0, -1)]   # shorter period, LATER evaluation
+            for pe, ev in zip(ends, evs):
+                kw = dict(period_start=ps, period_end=pe, evaluation_date=ev, values={"paid_loss": g.num("int")}, metadata=m)
+                if kind == "IncrementalCell":
+                    cells.append(_Inc(prev_evaluation_date=ps - datetime.timedelta(days=g.r.randint(1, 3)), **kw))
+                else:
+                    cells.append((_Cell if kind == "Cell" else _Cum)(**kw))
+                if g.r.random() < 0.3:     # a second period with another start and the same end
+                    kw2 = dict(kw, period_start=ps - datetime.timedelta(days=31))
+                    cells.append(_Inc(prev_evaluation_date=kw2["period_start"] - datetime.timedelta(days=1), **kw2)
+                                 if kind == "IncrementalCell" else (_Cell if kind == "Cell" else _Cum)(**kw2))
+        ctx.hist("layout:directed-shared-start")
+        base = None
+        for p in range(3):
+            perm = cells[:]
+            g.r.shuffle(perm)
+            try:
+                t = Triangle(perm)
+            except Exception as ex:  # noqa: BLE001
+                fails.append(("constructor-raised", repr(ex), perm, None, "list"))
+                break
+            ctx.count(evaluations=1, traces=1)
+            seq = strict_seq(t)
+            if base is None:
+                base = (seq, perm)
+                probs = canonical_violations(t)
+                if probs:
+                    fails.append(("not-canonical", probs, perm, None, "list"))
+                    break
+            elif seq != base[0]:
+                fails.append(("order-depends-on-input", "list vs list", base[1], perm, "list"))
+                break
+        if base is not None:
+            ctx.nontriv(base[0])
+            try:
+                cases.append((ct.ccells(cells), ct.ccells(Triangle(cells).cells), {"layout": "directed-shared-start"}))
+            except (ct.NotRepresentable, Exception):  # noqa: BLE001
+                pass
     # multisets with exact duplicates: every supplied cell is kept (a Triangle is built from a multiset)
     for i in range(40 if ctx.quick else 400):
         cells, info = g.cells(n_periods=g.r.randint(1, 3), n_lags=g.r.randint(1, 3), values=g.r.choice(["int", "float"]))
@@ -408,6 +485,13 @@ def run(ctx):
     n_seq = 150 if ctx.quick else 1500
     for i in range(n_seq):
         t, info = g.triangle(n_periods=g.r.randint(1, 4), n_lags=g.r.randint(1, 4), values=g.r.choice(["int", "float"]))
+        if len(t) and i % 6 == 5:
+            # a restated cell: the same coordinates twice with different values (accepted with a warning); whatever
+            # an operation does with it, the result must hold only cells that satisfy the date rules, in order
+            c0 = g.r.choice(list(t.cells))
+            t = Triangle(list(t.cells) + [c0.replace(values={k: (v + 1 if isinstance(v, (int, float)) and not isinstance(v, bool) else v)
+                                                            for k, v in c0.values.items()})])
+            ctx.hist("op:start-with-restated-cell")
         trace, prob = op_sequence(ctx, g, t, g.r.randint(1, 6 if ctx.quick else 12))
         ctx.count(evaluations=len(trace), traces=1)
         if prob:
@@ -439,6 +523,42 @@ def run(ctx):
                 ctx.hist("op:directed-slice")
                 if probs:
                     seq_fail = (chain, ("index_slice", probs, t2), t)
+                    break
+            if seq_fail:
+                break
+    # directed: table readers on triangles where ONE slice is unlimited (blank per_occurrence_limit column entries)
+    if seq_fail is None:
+        import dataclasses as _dc
+        import os as _os
+
+        for i in range(24 if ctx.quick else 240):
+            t, info = g.triangle(n_slices=g.r.randint(2, 3), slice_diff="per_occurrence_limit", basis="cum",
+                                 n_periods=g.r.randint(1, 3), n_lags=g.r.randint(1, 3), values=g.r.choice(["int", "float"]))
+            ms = t.metadata
+            if len(ms) < 2:
+                continue
+            m0 = g.r.choice(ms)
+            t = t.replace(metadata=lambda c: _dc.replace(c.metadata, per_occurrence_limit=None) if c.metadata == m0 else c.metadata)
+            lds = sorted({k for m in t.metadata for k in m.loss_details})
+            pth = f"/verif/build/C01/dir_{_os.getpid()}.csv"
+            readers = [("wide_frame_roundtrip", lambda: Triangle.from_wide_data_frame(t.to_wide_data_frame(), field_cols=list(t.fields), loss_detail_cols=lds)),
+                       ("wide_csv_roundtrip", lambda: (t.to_wide_csv(pth), Triangle.from_wide_csv(pth, field_cols=list(t.fields), loss_detail_cols=lds))[1]),
+                       ("long_csv_roundtrip", lambda: (t.to_long_csv(pth), Triangle.from_long_csv(pth))[1])]
+            for nm, fn in readers:
+                try:
+                    t2 = fn()
+                except Exception:  # noqa: BLE001  -- refusals / reader limits are C14's business
+                    ctx.hist("op:refused")
+                    continue
+                ctx.count(evaluations=1, traces=1)
+                ctx.hist("op:directed-" + nm)
+                probs = canonical_violations(t2)
+                if not probs and strict_seq(Triangle(list(t2.cells)[::-1])) != strict_seq(t2):
+                    probs = ["result is not a fixed point of the constructor"]
+                if not probs and len(t2.slices) != len({ct.canon_meta(m) for m in t2.metadata}):
+                    probs = ["slices are split"]
+                if probs:
+                    seq_fail = (["unlimit_one_slice", nm], (nm, probs, t2, t), t)
                     break
             if seq_fail:
                 break
@@ -510,10 +630,16 @@ def run(ctx):
                       {"kind": "meta-order", "axiom": b[0], "metadata": [ct.meta_to_obj(universe[i]) for i in b[1:]]},
                       found_input=True)
     if seq_fail:
-        trace, (op, probs, t2), t0 = seq_fail
+        trace, (op, probs, t2, *operand), t0 = seq_fail
+        data = {"kind": "op-chain", "trace": trace, "op": op, "start": [ct.cell_to_obj(c) for c in t0.cells],
+                "result": [ct.cell_to_obj(c) for c in t2.cells][:40]}
+        if operand and hasattr(operand[0], "cells"):
+            try:
+                data["operand"] = [ct.cell_to_obj(c) for c in operand[0].cells]
+            except Exception:  # noqa: BLE001
+                pass
         ctx.violation("impl-violation", f"operation chain {trace} returned a non-canonical triangle: {probs}",
-                      {"kind": "op-chain", "trace": trace, "start": [ct.cell_to_obj(c) for c in t0.cells],
-                       "result": [ct.cell_to_obj(c) for c in t2.cells][:40]}, found_input=True)
+                      data, found_input=True)
     if mism and not ctx.violations:
         ctx.violation("correspondence", "model and implementation disagree on the constructor's result",
                       {"mismatches": [repr(m) for m in mism[:5]]}, found_input=False)
@@ -552,8 +678,40 @@ def replay(ctx, data):
         unordered = a != b and not (a < b) and not (b < a)
         return 1 if (unordered or (a < b and b < a) or (a == b and (a < b or b < a)) or a < a) else 0
     if data.get("kind") == "op-chain":
-        print("recorded chain:", data["trace"], "-- re-run ./check C01 with the recorded seed to reproduce")
-        t = Triangle([ct.cell_from_obj(o) for o in data["start"]])
+        print("recorded chain:", data["trace"])
+        simple = {
+            "to_incremental": lambda t: t.to_incremental(), "to_cumulative": lambda t: t.to_cumulative(),
+            "right_edge": lambda t: t.right_edge, "summarize": lambda t: t.summarize(),
+            "make_right_triangle": lambda t: t.make_right_triangle(), "remove_static_details": lambda t: t.remove_static_details(),
+            "json_roundtrip": lambda t: Triangle.from_dict(t.to_dict()),
+            "blend": lambda t: t.blend([t], method="linear"), "coalesce": lambda t: t.coalesce([t.right_edge]),
+            "wide_frame_roundtrip": lambda t: Triangle.from_wide_data_frame(
+                t.to_wide_data_frame(), field_cols=list(t.fields),
+                loss_detail_cols=sorted({k for m in t.metadata for k in m.loss_details})),
+            "wide_csv_roundtrip": lambda t: (t.to_wide_csv("/verif/build/C01/replay.csv"), Triangle.from_wide_csv(
+                "/verif/build/C01/replay.csv", field_cols=list(t.fields),
+                loss_detail_cols=sorted({k for m in t.metadata for k in m.loss_details})))[1],
+            "long_csv_roundtrip": lambda t: (t.to_long_csv("/verif/build/C01/replay.csv"),
+                                             Triangle.from_long_csv("/verif/build/C01/replay.csv"))[1],
+        }
+        op = data.get("op")
+        if op in simple and data.get("operand") is not None:
+            import os
+
+            os.makedirs("/verif/build/C01", exist_ok=True)
+            t = Triangle([ct.cell_from_obj(o) for o in data["operand"]])
+            try:
+                t2 = simple[op](t)
+            except Exception as ex:  # noqa: BLE001
+                print(f"{op} on the recorded operand is refused now: {ex!r}")
+                return 0
+            probs = canonical_violations(t2)
+            if not probs and strict_seq(Triangle(list(t2.cells)[::-1])) != strict_seq(t2) \
+                    and len({(ct.canon_meta(c.metadata), c.coordinates) for c in t2.cells}) == len(t2):
+                probs = ["result is not a fixed point of the constructor"]
+            print(f"{op} on the recorded operand ({len(t)} cells): problems = {probs}")
+            return 1 if probs else 0
+        print("this step takes random arguments: re-run ./check C01 with the recorded seed to reproduce")
         return 1
     print(data)
     return 1
